@@ -211,11 +211,20 @@ impl TypeCheckRep {
     }
 }
 
-// When comparing TypeCheckReps, we should not really ignore the
-// predicate, but trait objects are not comparable.  So we approximate
-// using a coarser comparison that is modulo the predicates.
+// Trait objects are not comparable, so predicates are compared by
+// identity (the address of the shared predicate object).  The
+// comparison must not ignore the predicate or the indirect
+// specification: the type checker uses it to decide whether a check
+// has already been performed on an object.
+impl TypeCheckRep {
+    fn pred_id(&self) -> Option<usize> {
+        self.pred
+            .as_ref()
+            .map(|p| Rc::as_ptr(p) as *const () as usize)
+    }
+}
 impl PartialEq for TypeCheckRep {
-    fn eq(&self, other: &Self) -> bool { *self.typ == *other.typ }
+    fn eq(&self, other: &Self) -> bool { self.cmp(other) == Ordering::Equal }
 }
 
 impl PartialOrd for TypeCheckRep {
@@ -223,7 +232,12 @@ impl PartialOrd for TypeCheckRep {
 }
 impl Eq for TypeCheckRep {}
 impl Ord for TypeCheckRep {
-    fn cmp(&self, other: &Self) -> Ordering { (*self.typ).cmp(&*other.typ) }
+    fn cmp(&self, other: &Self) -> Ordering {
+        (*self.typ)
+            .cmp(&*other.typ)
+            .then(self.indirect.cmp(&other.indirect))
+            .then(self.pred_id().cmp(&other.pred_id()))
+    }
 }
 
 impl std::fmt::Debug for TypeCheckRep {
